@@ -84,7 +84,19 @@ StrLeaves(x) == CASE x[1] = "Lit" -> (IF x[2] = "String" THEN {x} ELSE {})
                   [] OTHER -> LET ks == Sub(x) IN UNION { StrLeaves(ks[i]) : i \in 1..Len(ks) }
 LeafSqlOf(c, x) == LET pairs == File.leaves[c.d]  hits == {i \in 1..Len(pairs) : pairs[i][1] = x} IN
                    IF hits = {} THEN <<>> ELSE pairs[CHOOSE i \in hits : TRUE][2]
-LeafLiteralsOk(c) == \A x \in StrLeaves(c.tree) : SqlTokens(LeafSqlOf(c, x)) = << <<"STR", x[3]>> >>
+\* ... and every decimal literal leaf is one number token spelled as in the filter (sign apart), or a typed literal
+\* around it; its digits are not re-derived from a binary floating point value
+RECURSIVE NumLeaves(_)
+NumLeaves(x) == CASE x[1] = "Lit" -> (IF x[2] = "Float" THEN {x} ELSE {})
+                  [] x[1] \in {"Id", "List"} -> {}
+                  [] x[1] = "Call" -> UNION { IF KeepArg(x[2][3], i, x[3][i]) THEN {} ELSE NumLeaves(x[3][i]) : i \in 1..Len(x[3]) }
+                  [] OTHER -> LET ks == Sub(x) IN UNION { NumLeaves(ks[i]) : i \in 1..Len(ks) }
+Unsigned(t) == IF Len(t) > 0 /\ t[1] \in {43, 45} THEN Tail(t) ELSE t
+NumLeafOk(c, x) == LET ts == SqlTokens(LeafSqlOf(c, x))
+                       nums == { i \in 1..Len(ts) : ts[i][1] = "NUM" } IN
+                   \E i \in nums : LowerSeq(ts[i][2]) = LowerSeq(Unsigned(StrCps(x[3])))
+LeafLiteralsOk(c) == /\ \A x \in StrLeaves(c.tree) : SqlTokens(LeafSqlOf(c, x)) = << <<"STR", x[3]>> >>
+                     /\ \A x \in NumLeaves(c.tree) : NumLeafOk(c, x)
 VerdictOf(c) ==
   IF ~WellFormed(c.out) THEN "not-wellformed"
   ELSE IF ~LeafLiteralsOk(c) THEN "literal-content-differs"
